@@ -178,7 +178,7 @@ def cyread_lp_file(object filename):
         raise ValueError(f"no file named {filename}")
 
     # A Model as returned by the LP-file reader
-    cdef Model model = readinstance(<string>(filename.encode()))
+    cdef Model model = readinstance(<string>(os.fsencode(filename)))
 
     # Convert to a C++ CQM
     cdef cppCQM[bias_type, index_type] cppcqm = model_to_cqm[bias_type, index_type](model)
